@@ -5,6 +5,7 @@ package main
 import (
 	"fmt"
 	"os"
+	"strconv"
 )
 
 func usage() {
@@ -34,6 +35,15 @@ func main() {
 		os.Exit(replayMain(os.Args[2]))
 	case "selftest":
 		os.Exit(selftestMain(os.Args[2:]))
+	case "planop":
+		if len(os.Args) != 5 {
+			usage()
+		}
+		k, err := strconv.Atoi(os.Args[4])
+		if err != nil {
+			usage()
+		}
+		os.Exit(planOpMain(os.Args[2], os.Args[3], k))
 	default:
 		usage()
 	}
